@@ -33,12 +33,36 @@ def run(S):
                     dict(check_stability=True, use_preconditioned_inner_product_for_cg=True)]
     for cfg in configs:
         _tr(S, cfg)
+    _non_finite_gradient(S)
     # "under the parameters it was asked to solve for": the entry point that installs the parameters and hands over to the
     # minimiser (contract shared with C19): new parameters are on the objective when the minimiser starts and after return,
     # also on a load step that leaves the boundary-condition slot unchanged
     from props.C19 import _driver
     for warm, upd, hold in ((True, True, False), (False, True, False), (True, False, False), (True, True, True)):
         _driver(S, 'optimism/EquationSolver.py', 'nonlinear_equation_solve', 'EquationSolver.nonlinear_equation_solve', warm, upd, hold=hold)
+
+
+def _non_finite_gradient(S):
+    """flag honesty under IEEE: the deductive clauses treat the squared gradient norm as a real; a NaN or infinite one is not
+    'below the tolerance', so the real convergence predicate must answer False on it. Every ordered comparison with NaN is
+    False, so one NaN representative decides the NaN class of each code shape (ground obligations on the real predicate)."""
+    import numpy as onp
+    ns, vc, info = P.load_module(FILE)
+    S.functions['EquationSolver.is_converged'] = dict(file=info['file'], sha256=P.fn_sha(info['file'], 'is_converged'), frontend='P (ground)')
+    for tol in (1e-8, 1.0, 1e30):
+        settings = _settings(ns, tol=tol, t1=0.25, t2=1.75, eta1=1e-10, eta2=0.1, eta3=0.5, max_trust_iters=100, max_cg_iters=50,
+                             max_cumulative_cg_iters=1000, cg_tol=0.2, cg_inexact_solve_ratio=1e-5, tr_size=2.0, min_tr_size=1e-13)
+        for label, r in (('nan', onp.array([onp.nan, 0.0])), ('-nan', onp.array([0.0, -onp.nan, 1e-40])), ('inf', onp.array([onp.inf, 0.0])),
+                         ('inf-and-nan', onp.array([-onp.inf, onp.nan]))):
+            try:
+                with onp.errstate(all='ignore'):
+                    res = ns['is_converged'](None, onp.zeros(r.size), 0.0, 0.0, r, onp.zeros(r.size), 0, 1.0, settings)
+                ok, detail = (not bool(res)), 'returned %r' % (res,)
+            except Exception as e:      # the predicate must stay total on non-finite input
+                ok, detail = False, 'raised %s: %s' % (type(e).__name__, str(e)[:120])
+            S.ground('EquationSolver.is_converged/non_finite_gradient_is_never_reported_converged[%s,tol=%g]' % (label, tol), ok,
+                     detail='gradient %s, tol %g: %s' % (r.tolist(), tol, detail),
+                     replay=lambda m, r=r, tol=tol, detail=detail: dict(reproduced=True, input=dict(realRes=[str(v) for v in r], tol=tol), observed=detail))
 
 
 def _tr(S, cfg):
